@@ -254,7 +254,9 @@ def ruleOk (r : Rule) (d : Desc) : Bool :=
   | .finality => txs.all (fun t => t.final d.C.height d.lockCutoff)
   | .bip34Height => !(decide (2 ≤ d.H.version) && decide (d.P.bip34H ≤ d.C.height)) || d.B.cbHeight = d.C.height
   | .witnessCommit => !d.segwit || d.B.commit ≠ 2
-  | .unexpectedWitness => !d.segwit || d.B.commit ≠ 0 || txs.all (fun t => !t.hasWitness)
+  | .unexpectedWitness =>
+      -- witness data needs a commitment, and there is none to be had before segwit is active
+      (d.segwit && d.B.commit ≠ 0) || txs.all (fun t => !t.hasWitness)
   | .bip30 => !d.bip30Enforced || txs.all (fun t => !t.overwrites)
   | .missingInput => nonCb.all (fun t => t.ins.all (fun i => i.null || i.avail))
   | .immature => nonCb.all (fun t => t.ins.all (fun i =>
